@@ -1752,14 +1752,29 @@ class BaseInterpreter(Generic[TContext, TEvent]):
         #    in an indeterminate state. A depth counter turns an authoring
         #    mistake into a clear, contained log message.
         depth = getattr(self, "_action_depth", 0)
+        if depth == 0:
+            # 🌱 A top-level action starts a fresh expansion.
+            self._expansion_cut = False
         if depth > self.MAX_ACTION_DEPTH:
             logger.error(
                 "🔁 Nested action expansion exceeded %d levels while handling "
-                "'%s'. Aborting this branch; check for an enqueueActions or "
-                "pure callback that re-enqueues itself.",
+                "'%s'. Aborting this expansion; check for an enqueueActions "
+                "or pure callback that re-enqueues itself.",
                 self.MAX_ACTION_DEPTH,
                 action_def.type,
             )
+            # 🛑 The depth counter bounds how DEEP an expansion goes, not how
+            #    large it is: a callback that re-enqueues itself twice builds
+            #    a tree with 2**depth leaves, and cutting one branch at a time
+            #    never finishes. Once the bound trips, the rest of this
+            #    expansion produces no further follow-ups.
+            self._expansion_cut = True
+            return []
+        if getattr(self, "_expansion_cut", False) and canonical in (
+            PURE,
+            CHOOSE,
+            ENQUEUE_ACTIONS,
+        ):
             return []
 
         if canonical == ASSIGN:
